@@ -232,8 +232,9 @@ def run(ctx, only_cases=None):
     leaks = [(c, o) for c, o in done if o.get("leak")]
 
     # ---- model vs implementation on the deterministic modes ----
+    # stream_gate reads=1 parks inside io.ReadFull, which holds its own copy of the reader: outside the model's granularity
     det = [(c, o) for c, o in done if c["mode"] in ("dispose_hist", "tunnel_seq", "tunnel_sched", "traffic_gate", "stream_gate")
-           and o.get("key") not in ("dispose-hang", "tunnel-hang", "traffic-hang", "stream-gate-hang")]
+           and not (c["mode"] == "stream_gate" and c["reads"] < 2) and o.get("key") not in ("dispose-hang", "tunnel-hang", "traffic-hang", "stream-gate-hang")]
     terms = [case_value(c, o, tunnel_fixed, traffic_fixed) for c, o in det]
     mism = []
     try:
